@@ -44,10 +44,10 @@ def slice_cfgs(spec, tier):
     return cfgs if tier == "thorough" else [cfgs[0], cfgs[3], cfgs[5]] + ([c for c in cfgs if c[3]] [:1])
 
 
-def run_case(spec, cfg, mode="enumerate", var=None):
+def run_case(spec, cfg, mode="enumerate", var=None, stack=None):
     from mc import solvemc as S
 
-    o = S.run(spec, cfg, mode, var, jump_budget=1 << 60)
+    o = S.run(spec, cfg, mode, var, jump_budget=1 << 60, stack=stack)
     return {"solutions": [list(x) for x in o.solutions], "result": None if o.result is None else list(o.result),
             "stats": o.stats, "abort": o.abort}
 
@@ -74,6 +74,13 @@ def cmd_slice(tier, shard, nshards, order="fwd"):
                 if a != b:
                     out["inprocess_mismatch"].append({"case": k, "spec": spec, "cfg": list(cfg), "mode": mode, "first": a, "second": b})
                 out["cases"][k] = [digest(a), len(a["solutions"]), a["abort"]]
+        # solver parameters at the ends of their documented ranges: stack heights 16 / 255 / 256
+        if i % 7 == 0 or spec["tag"][:2] in ("F3", "F4"):
+            for stack in (16, 255, 256):
+                for cfg in slice_cfgs(spec, tier)[:2]:
+                    a = run_case(spec, cfg, "enumerate", None, stack)
+                    k = f"{i}|{'/'.join(map(str, cfg))}|enumerate@stack{stack}"
+                    out["cases"][k] = [digest(a), len(a["solutions"]), a["abort"]]
     print(json.dumps(out))
 
 
